@@ -23,7 +23,7 @@ tvars == <<phase, ca, cb, ka, kb, args, tid, l>>
 
 Why(t) ==
     CASE t.ty = "lift" -> LiftWhy(t.ka, t.A, t.kb, t.B, t.tab, t.O, t.stopx)
-      [] t.ty = "lazy" -> LazyWhy(t.ops, t.tab, t.law, t.gen, t.O)
+      [] t.ty = "lazy" -> LazyWhy(t.ops, t.tab, t.law, t.gen, t.O, t.invs)
       [] t.ty = "call" -> CallWhy(t.sigs, t.calls, t.leaves, t.tab, t.O)
       [] t.ty = "range" -> RangeWhy(t.fn, t.a, t.r, t.r2)
       [] t.ty = "inv" -> InvWhy(t.fn, t.k, t.r, t.rt)
